@@ -1580,3 +1580,28 @@ ExecuteScriptHelper.native_witness = {'assignment-writes-locals-inside-functions
 ScriptFunction.native_witness = {'C04.bound-so-far': BINDING_WITNESS, 'C04.parameters-bound-positionally': BINDING_WITNESS}
 EvaluateExpression.native_witness = {'operator-semantics': OPERATOR_WITNESS, 'C03.short-circuit': OPERATOR_WITNESS,
                                      'C03.unary': OPERATOR_WITNESS}
+
+BUDGET_WITNESS = _W_PRELUDE + """
+from bare_script.runtime import BareScriptRuntimeError
+def count_run(text, limit):
+    o = {'globals': {}, 'maxStatements': limit}
+    try:
+        execute_script(parse_script(text), o)
+        return 'ok', o['statementCount']
+    except BareScriptRuntimeError as exc:
+        return 'aborted', o['statementCount']
+prog = 'function one():\\n    return 1\\nendfunction\\nfunction rec(nn):\\n    return if(nn, rec(nn - 1), 0)\\nendfunction\\naa = one()\\nbb = one()\\ncc = rec(5)\\nreturn aa\\n'
+status, total = count_run(prog, 0)
+if status != 'ok' or total != 14:
+    bad.append({'what': 'every statement of every script function call is counted (2 defs + 4 top-level + 2 one() + 6 rec())', 'observed': [status, total]})
+for limit in range(1, total + 2):
+    st, cnt = count_run(prog, limit)
+    if (st == 'ok') != (limit >= total):
+        bad.append({'what': 'aborted exactly when statement L+1 would start', 'limit': limit, 'observed': [st, cnt]})
+        break
+st, cnt = count_run('function loop(nn):\\n    return loop(nn + 1)\\nendfunction\\nreturn loop(0)\\n', 50)
+if st != 'aborted':
+    bad.append({'what': 'unbounded recursion through a one-line function is stopped by the budget', 'observed': [st, cnt]})
+result = {'violates': bool(bad), 'counterexamples': bad[:2]}
+"""
+ScriptFunction.native_witness = dict(ScriptFunction.native_witness, **{'C09.': BUDGET_WITNESS, 'body-run': BUDGET_WITNESS})
